@@ -587,8 +587,8 @@ pub fn check() -> Check {
     )
     .assume("a change of only the secp256k1 recovery-id byte to another value in 0..=3 is not a signature change for verify_secp256k1 (explicit public key): counted, not judged; values > 3 must fail; verify_and_recover_secp256k1 is judged on it")
     .assume("cryptographic coincidences (a mutated value that happens to verify) are treated as impossible")
-    .part(Part::new("secp256k1", 12_000, 500_000, 200, secp))
-    .part(Part::new("ed25519", 24_000, 1_000_000, 500, ed))
-    .part(Part::new("bls", 8_000, 300_000, 500, bls))
+    .part(Part::new("secp256k1", 30_000, 1_000_000, 200, secp))
+    .part(Part::new("ed25519", 60_000, 2_000_000, 500, ed))
+    .part(Part::new("bls", 20_000, 600_000, 500, bls))
     .min_nontrivial_pct(30.0)
 }
